@@ -207,6 +207,7 @@ structure RObj where
   atcoords : Option (List Nat) := none
   atnums : Option (List Nat) := none
   atcorenums : Option (List Nat) := none
+  atmasses : Option (List Nat) := none
   atcharges : List Nat := []          -- `len` of every entry of the `atcharges` dict
   atffparams : List Nat := []         -- `len` of every entry of the `atffparams` dict
   extraAtom : List Nat := []          -- `len` of the per-atom arrays stored in `extra`
@@ -224,13 +225,14 @@ def lenOf : List Nat → Nat
   | [] => 0
   | n :: _ => n
 
-/-- `IOData.natom` (iodata.py: atcoords, atcorenums, [atgradient, atfrozen, atmasses,] atnums) -/
+/-- `IOData.natom` (iodata.py: atcoords, atcorenums, [atgradient, atfrozen,] atmasses, atnums) -/
 def RObj.natom (o : RObj) : Option Nat :=
-  match o.atcoords, o.atcorenums, o.atnums with
-  | some s, _, _ => some (lenOf s)
-  | none, some s, _ => some (lenOf s)
-  | none, none, some s => some (lenOf s)
-  | none, none, none => none
+  match o.atcoords, o.atcorenums, o.atmasses, o.atnums with
+  | some s, _, _, _ => some (lenOf s)
+  | none, some s, _, _ => some (lenOf s)
+  | none, none, some s, _ => some (lenOf s)
+  | none, none, none, some s => some (lenOf s)
+  | none, none, none, none => none
 
 /-- one requirement of `validate_shape`: `none` = not checked -/
 def shapeMatch (expected : List (Option Nat)) (observed : List Nat) : Bool :=
@@ -243,7 +245,7 @@ def optShape (expected : List (Option Nat)) : Option (List Nat) → Bool
   | some s => shapeMatch expected s
 
 /-- the validators of `IOData.__init__` that concern the arrays the readers return
-(`_validate_atcharges`, `validate_shape("natom", 3)`, `("natom")`, `(None, 3)`): all pass? -/
+(`_validate_atcharges`, `validate_shape("natom", 3)`, `("natom")`, `(None, 3)`; `atmasses` last): all pass? -/
 def ctorOk (o : RObj) : Bool :=
   (match o.natom with
    | none => true
@@ -252,7 +254,8 @@ def ctorOk (o : RObj) : Bool :=
   optShape [o.natom] o.atcorenums &&
   optShape [o.natom] o.atnums &&
   optShape [none, some 3] o.bonds &&
-  optShape [none, some 3] o.cellvecs
+  optShape [none, some 3] o.cellvecs &&
+  optShape [o.natom] o.atmasses
 
 /-- `IOData(**result)`: `TypeError` from a validator -/
 def ctorE (o : RObj) : Option Cls := if ctorOk o then none else some .type
@@ -261,7 +264,8 @@ def ctorE (o : RObj) : Option Cls := if ctorOk o then none else some .type
 def RObj.Consistent (o : RObj) (n : Nat) : Prop :=
   (∀ s, o.atcoords = some s → s = [n, 3]) ∧ (∀ s, o.atnums = some s → s = [n]) ∧
   (∀ s, o.atcorenums = some s → s = [n]) ∧ (∀ k ∈ o.atcharges, k = n) ∧
-  (∀ s, o.bonds = some s → ∃ m, s = [m, 3]) ∧ (∀ s, o.cellvecs = some s → ∃ m, s = [m, 3])
+  (∀ s, o.bonds = some s → ∃ m, s = [m, 3]) ∧ (∀ s, o.cellvecs = some s → ∃ m, s = [m, 3]) ∧
+  (∀ s, o.atmasses = some s → s = [n])
 
 /-- … including the per-atom entries of `atffparams` and `extra`, which no validator checks -/
 def RObj.FullyConsistent (o : RObj) (n : Nat) : Prop :=
@@ -274,6 +278,7 @@ def kAtnums : Str := ['a','t','n','u','m','s']
 def kAtcorenums : Str := ['a','t','c','o','r','e','n','u','m','s']
 def kAtcharges : Str := ['a','t','c','h','a','r','g','e','s']
 def kAtffparams : Str := ['a','t','f','f','p','a','r','a','m','s']
+def kAtmasses : Str := ['a','t','m','a','s','s','e','s']
 def kBonds : Str := ['b','o','n','d','s']
 def kCellvecs : Str := ['c','e','l','l','v','e','c','s']
 def kCube : Str := ['c','u','b','e']
@@ -285,7 +290,7 @@ def kTitle : Str := ['t','i','t','l','e']
 def accessors : List (Str × (RObj → Bool)) :=
   [(kAtcoords, fun o => o.atcoords.isSome), (kAtnums, fun o => o.atnums.isSome),
    (kAtcorenums, fun o => o.atcorenums.isSome), (kAtcharges, fun o => o.hasAtcharges),
-   (kAtffparams, fun o => o.hasAtffparams), (kBonds, fun o => o.bonds.isSome),
+   (kAtffparams, fun o => o.hasAtffparams), (kAtmasses, fun o => o.atmasses.isSome), (kBonds, fun o => o.bonds.isSome),
    (kCellvecs, fun o => o.cellvecs.isSome), (kCube, fun o => o.cube.isSome),
    (kExtra, fun o => o.hasExtra), (kTitle, fun o => o.hasTitle)]
 
@@ -318,7 +323,7 @@ def showLens (l : List Nat) : String := if l.isEmpty then "-" else ",".intercala
 
 /-- canonical text of a result (compared with the implementation) -/
 def RObj.show (o : RObj) : String :=
-  s!"atcoords={showShape o.atcoords} atnums={showShape o.atnums} atcorenums={showShape o.atcorenums} " ++
+  s!"atcoords={showShape o.atcoords} atnums={showShape o.atnums} atcorenums={showShape o.atcorenums} atmasses={showShape o.atmasses} " ++
   s!"atcharges={showLens o.atcharges} atffparams={showLens o.atffparams} extra={showLens o.extraAtom} " ++
   s!"bonds={showShape o.bonds} cellvecs={showShape o.cellvecs} cube={showShape o.cube} keys={showNames o.keys}"
 
